@@ -81,3 +81,8 @@ def parse(text):
         line = exc.tokenizer.line_info(exc.pos).line if text else 0
         parseinfo = tatsu.infos.ParseInfo(exc.tokenizer, exc.item, exc.pos, exc.pos + 1, line, [])
         raise ParseError(parseinfo) from exc
+    except RecursionError as exc:
+        # The statement is too deeply nested for the recursive descent
+        # parser. Report this as a syntax error spanning the whole text.
+        parseinfo = tatsu.infos.ParseInfo(parser.BQLBuffer(text), 'bql', 0, len(text), 0, [])
+        raise ParseError(parseinfo) from exc
